@@ -16,6 +16,20 @@ Local Open Scope N_scope.
 Theorem C09_no_ambient_state : src_ambient = [] /\ src_forbid_unsafe = true.
 Proof. split; reflexivity. Qed.
 
+(* (3') the in-memory keys carry no state beyond their bytes: the fields of SigningKey and
+   VerifyingKey in the struct table of the current source are the key bytes and a marker, so that
+   [try_sign] can only be a function of those bytes (as [signing_key_try_sign] models it) *)
+Definition key_object_fields (name : String.string) : option (list String.string) :=
+  match find (fun st => String.eqb (fst (fst st)) name) src_structs with
+  | Some st => Some (map (fun f => fst (fst f)) (snd st))
+  | None => None
+  end.
+
+Theorem C09_key_objects_are_their_bytes :
+  key_object_fields "SigningKey"%string = Some ["bytes"%string; "phantom_data"%string]
+  /\ key_object_fields "VerifyingKey"%string = Some ["bytes"%string; "phantom_data"%string].
+Proof. split; vm_compute; reflexivity. Qed.
+
 (* (1) the in-memory signing key is the byte-level function with the storing callback *)
 Theorem C09_entry_points_agree :
   forall (n : nat) (H : bytes -> bytes) (key msg : bytes),
@@ -66,6 +80,7 @@ Theorem C09_blob_roundtrip :
 Proof. intros n k. apply blob_parse_of. Qed.
 
 Print Assumptions C09_no_ambient_state.
+Print Assumptions C09_key_objects_are_their_bytes.
 Print Assumptions C09_entry_points_agree.
 Print Assumptions C09_callback_only_verdict.
 Print Assumptions C09_reload_is_invisible.
